@@ -152,8 +152,20 @@ def h_equ(ctx, fn):
             o2 = ctx.call(COORD + fn, e2, e1, o1[0], o1[1])
             v0, v2 = unitvec(al, de), unitvec(deg(ctx, o2[0]), deg(ctx, o2[1]))
             ctx.vc("there and back returns the start direction", abs(dot(v0, v2) - 1.0) < 1e-12)
+            # replay aid: the result against the IAU 1976 matrix formed here from Meeus' (21.2) polynomials
+            Tn, tn = (j1 - 2451545.0) / 36525.0, (j2 - j1) / 36525.0
+            ze_, z_, th_ = (float(x.frac()) / 3600.0 for x in meeus_21_2(Tn, tn))
+            want = matvec(P_matrix(ze_, z_, th_), unitvec(al + mu_a * tn * 100.0, de + mu_d * tn * 100.0))
+            got = unitvec(olon, olat)
+            ctx.vc("the result is the IAU 1976 rotation of the given direction (1e-9)", max(abs(a_ - b_) for a_, b_ in zip(want, got)) < 1e-9)
         return
-    args = ctx.it.info["dms2deg_args"]
+    args = ctx.it.info.get("dms2deg_args", [])
+    if len(args) < 3 or "start_angles" not in ctx.it.info:
+        # a path that returns without forming zeta, z, theta and rotating: only the identity may be returned that way
+        ctx.vc("a result that is not computed by the rotation is returned only for a zero interval (where the rotation is the "
+               "identity and proper motion adds nothing)", j1 == j2)
+        ctx.vc("... and it is the given direction", and_(olon == al, olat == de))
+        return
     zeta, z, theta = (a_[3] for a_ in args[-3:])                  # degrees (reduced), atoms
     cent = Fraction(36525) if fn == "precession_equatorial" else Fraction(365242199, 10000)
     yrs = (j2 - j1) / cent * 100
@@ -191,7 +203,10 @@ def h_equ_canary(ctx):
     if ctx.native:
         ctx.vc("canary", False)
         return
-    args = ctx.it.info["dms2deg_args"]
+    args = ctx.it.info.get("dms2deg_args", [])
+    if len(args) < 3 or len(ctx.uf_terms("atan2")) < 2:
+        ctx.vc("canary (path without the rotation)", False)
+        return
     zeta, z, theta = (a_[3] for a_ in args[-3:])
     (A, B) = ctx.uf_terms("atan2")[-2]            # the right-ascension arctangent (the last one is the declination's)
     al1, de1 = ctx.it.info["start_angles"]
@@ -211,9 +226,14 @@ def h_params(ctx, fn):
     ra, al = angle(ctx, "alpha")
     dc, de = angle(ctx, "delta", -90, 85, closed=True)
     ctx.call(COORD + fn, e1, e2, ra, dc)
-    a12 = [a_[2] for a_ in ctx.it.info["dms2deg_args"][-3:]]          # zeta, z, theta polynomials (arcsec), 1 -> 2
+    n1 = len(ctx.it.info.get("dms2deg_args", []))
+    a12 = [a_[2] for a_ in ctx.it.info.get("dms2deg_args", [])[-3:]]          # zeta, z, theta polynomials (arcsec), 1 -> 2
     ctx.call(COORD + fn, e2, e1, ra, dc)
-    a21 = [a_[2] for a_ in ctx.it.info["dms2deg_args"][-3:]]          # 2 -> 1
+    n2 = len(ctx.it.info.get("dms2deg_args", [])) - n1
+    a21 = [a_[2] for a_ in ctx.it.info.get("dms2deg_args", [])[-3:]]          # 2 -> 1
+    if n1 < 3 or n2 < 3:
+        ctx.vc("zeta, z, theta are formed on every path, except possibly for a zero interval", j1 == j2)
+        return
     z0 = lambda v: implies(j1 == j2, v == 0)
     ctx.vc("zero interval: zeta = z = theta = 0 (identity rotation)", and_(z0(a12[0]), z0(a12[1]), z0(a12[2])))
     if fn == "precession_equatorial":
@@ -265,7 +285,11 @@ def h_ecl(ctx):
     if ctx.native:
         ctx.vc("latitude in [-90, 90]", -90 <= olat <= 90)
         return
-    args = ctx.it.info["dms2deg_args"]
+    args = ctx.it.info.get("dms2deg_args", [])
+    if len(args) < 3 or "start_angles" not in ctx.it.info or "pie_used" not in ctx.it.info:
+        ctx.vc("a result that is not computed by the rotation is returned only for a zero interval (identity)", j1 == j2)
+        ctx.vc("... and it is the given direction", and_(olon == lam, olat == bet))
+        return
     eta, pie0, p = (a_[3] for a_ in args[-3:])
     eta_poly, p_poly = args[-3][2], args[-1][2]
     lam1, bet1 = ctx.it.info["start_angles"]
@@ -322,6 +346,11 @@ def h_orbital(ctx):
     arg, w0 = angle(ctx, "arg0")
     lon, o0 = angle(ctx, "lon0")
     out = ctx.call(COORD + "orbital_equinox2equinox", e0, e1, inc, arg, lon)
+    if "orb" not in ctx.it.info or len(ctx.it.info.get("dms2deg_args", [])) < 3:
+        oi, ow, oo = (deg(ctx, x) for x in out)
+        ctx.vc("elements that are not computed by the rotation are returned only for a zero interval (identity)", j0 == j1)
+        ctx.vc("... and they are the given elements", and_(oi == i0, ow == w0, oo == o0))
+        return
     orb = ctx.it.info["orb"]
     eta, pie, p = orb["eta"], orb["pie"], orb["p"]
     dargs = ctx.it.info["dms2deg_args"]
@@ -478,3 +507,6 @@ def b_prec(rng, tier):
         except Exception as ex:
             ok, det = False, repr(ex)
         yield (("orbital-in-ecliptic", inc, round(om, 4), round(w, 4), round(c1, 4), round(c2, 4)), ok, det)
+
+
+P.frame_check()
